@@ -67,7 +67,7 @@ class C20(Sim):
             "distinct = distinct (element-kind, op-kind multiset signature, interleaving hash); "
             "non-trivial = at least one union that merged two blocks or one pop of a non-empty queue")
     FAULT_KINDS = ["reject"]
-    PROBES = ["held_item_rechecked", "self_union", "union_absent", "repeat_add", "tie_pop", "inf_priority", "mixed_elements", "tuple_elements",
+    PROBES = ["other_instance_in_between", "held_item_rechecked", "self_union", "union_absent", "repeat_add", "tie_pop", "inf_priority", "mixed_elements", "tuple_elements",
               "component_query", "mapping_query", "merge", "constructor_duplicates", "same_item_pushed_again", "deep_tree_bulk_query"]
     QUICK_RUNS = 12000
     THOROUGH_RUNS = 2000000
@@ -141,6 +141,7 @@ class C20(Sim):
         self.next_item = 0
         self.popped = set()
         self.held = []
+        self.others = []
         self.last_push = None
         self.merges = 0
         self.pops = 0
@@ -174,6 +175,9 @@ class C20(Sim):
         present = [e for e in self.elts if e in self.ref.block]
         absent = [e for e in self.elts if e not in self.ref.block]
         E = lambda x: canon(x)
+        if c in ("grower", "producer") and r.chance(0.06):
+            # ANOTHER union-find / queue is created and used in the same process (kept alive): nothing of it may show in the ones under test
+            return {"c": c, "op": "other_instance", "what": "uf" if c == "grower" else "pq", "n": r.randint(1, 6), "k": r.below(1 << 16)}
         if c == "grower":
             op = r.wchoice(["add", "union", "union_self", "add_repeat"], [3, 6, 1, 1])
             if op == "add" and absent:
@@ -418,6 +422,34 @@ class C20(Sim):
             out = call(uf.connected, dec(ev["x"]), dec(ev["y"]))
             self._expect_reject(out, ValueError, op)
             res = "rejected"
+        elif op == "other_instance":
+            from mouette.utils import UnionFind, PriorityQueue
+            self.probes["other_instance_in_between"] += 1
+
+            def other():
+                if ev["what"] == "uf":
+                    u = UnionFind([("other", i) for i in range(ev["n"])])
+                    for i in range(ev["n"] - 1):
+                        if (ev["k"] >> i) & 1:
+                            u.union(("other", i), ("other", i + 1))
+                    u.add(("other", "late"))
+                    return u, (u.components(), u.roots(), u.n_comp if hasattr(u, "n_comp") else None)
+                q = PriorityQueue()
+                for i in range(ev["n"]):
+                    q.push(("other", i), float((ev["k"] >> i) & 3))
+                if ev["n"] > 1:
+                    q.pop()
+                return q, None
+            out = call(other)
+            if out.ok:
+                self.others.append(out.value[0])
+            res = "other-" + ev["what"]
+            query = False
+            self._uf_invariant(op)
+            self._held_items(op)
+            mn_ok = call(self.pq.empty)
+            if mn_ok.ok and bool(mn_ok.value) != (len(self.pending) == 0):
+                self.violation("emptiness", op, "state_corrupted", "empty", "", "empty()=%r with %d pending after another queue was used" % (mn_ok.value, sum(self.pending.values())))
         # ----- priority queue -----
         elif op == "push":
             w = ev["w"]
